@@ -124,18 +124,22 @@ def usablePri (n : Nat) : Option (PriShare S) → Option (Int × S)
   | some ⟨i, some v⟩ => if 0 ≤ i ∧ i < (n : Int) then some (i, v) else none
   | _ => none
 
-/-- `xScalar`: walk the slice, keep usable entries, `break` once `len(x) == t`.
+/-- `xScalar` (as repaired by /repo 2d8b40a): walk the slice, keep usable entries whose index was
+not collected before (`seen` = keys of the Go map `seen`), `break` once `len(x) == t`.
 `cnt` is `len(x)` before the current entry. -/
-def xScalarAux (t n : Nat) : Nat → Nat → List (Option (PriShare S)) → List (Node S S)
-  | _, _, [] => []
-  | pos, cnt, s :: rest =>
+def xScalarAux (t n : Nat) : Nat → Nat → List Int → List (Option (PriShare S)) → List (Node S S)
+  | _, _, _, [] => []
+  | pos, cnt, seen, s :: rest =>
     match usablePri n s with
-    | none => xScalarAux t n (pos + 1) cnt rest
+    | none => xScalarAux t n (pos + 1) cnt seen rest
     | some (i, v) =>
-      ⟨pos, xOf i, v⟩ :: (if cnt + 1 = t then [] else xScalarAux t n (pos + 1) (cnt + 1) rest)
+      if i ∈ seen then xScalarAux t n (pos + 1) cnt seen rest
+      else
+        ⟨pos, xOf i, v⟩ ::
+          (if cnt + 1 = t then [] else xScalarAux t n (pos + 1) (cnt + 1) (i :: seen) rest)
 
 def xScalar (shares : List (Option (PriShare S))) (t n : Nat) : List (Node S S) :=
-  xScalarAux t n 0 0 shares
+  xScalarAux t n 0 0 [] shares
 
 /-- inner loop `for j, xj := range x { if i == j {continue}; num *= xj; den *= xj - xi }` -/
 def numDen {V : Type} (xs : List (Node S V)) (i : Node S V) (num0 : S) : S × S :=
@@ -243,13 +247,17 @@ def usablePub (n : Nat) : Option (PubShare P) → Option (Int × P)
   | some ⟨i, some v⟩ => if 0 ≤ i ∧ i < (n : Int) then some (i, v) else none
   | _ => none
 
-/-- the map built at the top of `RecoverCommit` (ALL usable entries, no `break`) -/
-def xCommitAux (S : Type) [IntCast S] (n : Nat) : Nat → List (Option (PubShare P)) → List (Node S P)
-  | _, [] => []
-  | pos, s :: rest =>
+/-- the map built at the top of `RecoverCommit` (ALL usable entries with an index not collected
+before – one share per index since /repo 2d8b40a –, no `break`) -/
+def xCommitAux (S : Type) [IntCast S] (n : Nat) :
+    Nat → List Int → List (Option (PubShare P)) → List (Node S P)
+  | _, _, [] => []
+  | pos, seen, s :: rest =>
     match usablePub n s with
-    | none => xCommitAux S n (pos + 1) rest
-    | some (i, v) => ⟨pos, xOf i, v⟩ :: xCommitAux S n (pos + 1) rest
+    | none => xCommitAux S n (pos + 1) seen rest
+    | some (i, v) =>
+      if i ∈ seen then xCommitAux S n (pos + 1) seen rest
+      else ⟨pos, xOf i, v⟩ :: xCommitAux S n (pos + 1) (i :: seen) rest
 
 /-- body of the outer loop of `RecoverCommit`: `Acc.Add(Acc, Tmp.Mul(num.Div(num, den), V))` -/
 def commitStep (divPanics : Bool) (x : List (Node S P)) (acc : Out P) (i : Node S P) : Out P :=
@@ -264,7 +272,7 @@ def commitStep (divPanics : Bool) (x : List (Node S P)) (acc : Out P) (i : Node 
 
 /-- `RecoverCommit` -/
 def recoverCommit (divPanics : Bool) (shares : List (Option (PubShare P))) (t n : Nat) : Out P :=
-  let x : List (Node S P) := xCommitAux S n 0 shares
+  let x : List (Node S P) := xCommitAux S n 0 [] shares
   if x.length < t then .err .few
   else x.foldl (commitStep divPanics x) (.ok 0)
 
